@@ -128,7 +128,7 @@ def gen_seq_groups(res):
 
 # ---------------------------------------------------------------- competing lockers
 
-def gen_conc(rng, sid, nclients, rounds):
+def gen_conc(rng, sid, nclients, rounds, dup=False):
     d = "c08c%d" % sid
     k = dmaplib.hx("mutex")
     clients = []
@@ -139,7 +139,12 @@ def gen_conc(rng, sid, nclients, rounds):
             h = "%s-c%d-%d" % (d, c, r)
             ops.append({"op": "lock", "c": path, "d": d, "k": k, "ms": 0, "dl": rng.choice([15, 120]), "tok": h})
             ops.append({"op": "cs", "k": k + d.encode().hex(), "ms": rng.randrange(1, 4), "tok": h})
-            ops.append({"op": "unlock", "tok": h})
+            if dup and c == 0:
+                # the holder's Unlock arrives several times at once (a duplicated / re-sent request) while the other clients are
+                # waiting for the key: the token releases the lock once, the copies of the request fail and change nothing
+                ops.append({"op": "unlockdup", "tok": h, "count": rng.choice([2, 3, 4])})
+            else:
+                ops.append({"op": "unlock", "tok": h})
         clients.append({"ops": ops})
     return {"id": sid, "clients": clients, "_k": k, "_d": d}
 
@@ -168,6 +173,13 @@ def judge_conc(sc, r):
             elif o == "cs":
                 if op["tok"] in got and ob.get("occupants", 1) > 1:
                     return "%d clients were inside the critical section guarded by one lock" % ob["occupants"], None
+            elif o == "unlockdup":
+                if op["tok"] in got:
+                    rs = ob.get("rs") or []
+                    if sorted(rs) != ["nosuchlock"] * (len(rs) - 1) + ["ok"]:
+                        return "client %d: the holder's Unlock sent %d times at once returned %s (the token is valid once)" % (ci, len(rs), rs), None
+                    # all copies span the same interval: one of them releases, the others present a stale token
+                    evs.append(conclib.ev(ob["n0"], ob["n1"], "LUnlock %s" % cZ(toks[op["tok"]]), "LOk"))
             elif o == "unlock":
                 if op["tok"] in got:
                     if ob.get("r") != "ok":
@@ -263,7 +275,7 @@ def run(res):
         scs = []
         for i in range(rounds):
             rng = vlib.rng_for(res.seed, PID, "conc", ci, i)
-            scs.append(gen_conc(rng, sid, rng.randrange(3, 7), rng.randrange(2, 4)))
+            scs.append(gen_conc(rng, sid, rng.randrange(3, 7), rng.randrange(2, 4), dup=(i % 3 == 2)))
             sid += 1
         groups.append((cfg, scs))
     results = conclib.run_groups(groups)
